@@ -128,7 +128,7 @@ def groupRows (cfg : TableCfg) (now : Int) (q : Query) (pl : Plan) (inFields : L
   let gAsOf0 := if pl.qAsOf = 0 then tableAsOf cfg now else pl.qAsOf
   let gAsOf := if gUntil - gAsOf0 < gRes then gUntil - gRes else gAsOf0
   let inExprs := inFields.map (·.ex)
-  let sms := q.outFields.map (fun f => f.ex.subMergers inExprs)
+  let sms := q.outFields.map (fun f => dedupInputs inExprs (f.ex.subMergers inExprs))
   let slice := fun (k : Key) => if q.groupBy.isEmpty then k else k.filter (fun kv => q.groupBy.contains kv.1)
   let step := fun (out : List Row) (r : Row) =>
     let km := (metas.find? (fun m => m.key == r.key)).getD { key := r.key }
